@@ -341,7 +341,7 @@ func createTaskWithDir(dir string, opts GlobalOptions, lockPath, eventsPath, epi
 				return fmt.Errorf("task %s is not an epic", epicID)
 			}
 		}
-		id, err := newShortID(graph.Tasks)
+		id, err := newShortID(graph.Tasks, graph.Tombstones)
 		if err != nil {
 			return err
 		}
